@@ -59,7 +59,7 @@ def judge(seq, enc, mode, full, kind, val):
     in_table = seq in T.table
     tprefix = seq in T.prefixes
     cclass = km.char_class(seq, enc)
-    meta_collision = enc == "utf-8" and len(seq) == 1 and seq[0] >= 0x80
+    meta_collision = km.canon(enc) == "utf-8" and len(seq) == 1 and seq[0] >= 0x80
     if kind == "exc":
         if len(seq) > T.maxlen and isinstance(val, ValueError):
             return None
@@ -280,19 +280,22 @@ def tree_nodes(enc, tier):
             if child[0] != 0x1B:
                 continue
             kind, _ = outcome(child, enc, "bytes", False)
-            if kind == "none" and len(child) <= km.tables().maxlen:
+            # follow the decoder where it waits - but only along prefixes the tables justify, so the walk stays finite
+            # even when the code under test waits on anything (a child that waits without justification is judged when
+            # its parent is expanded)
+            if kind == "none" and len(child) <= km.tables().maxlen and child in km.tables().prefixes:
                 nodes.append(child)
                 queue.append(child)
-    if enc == "utf-8":
+    if km.canon(enc) == "utf-8":
         pre = km.utf8_valid_prefixes()
-        if tier == "quick":
-            pre = [p for p in pre if len(p) <= 2]
+        if tier == "quick" or enc != "utf-8":
+            pre = [p for p in pre if len(p) <= (2 if enc == "utf-8" else 1)]
         nodes += pre
     return nodes
 
 
 def enum_tree(col, tier, shard, nshards):
-    for enc in km.ENCODINGS:
+    for enc in km.ENCODINGS + km.ALIASES:
         nodes = tree_nodes(enc, tier)
         mine = nodes[shard::nshards]
         for mode in MODES:
@@ -335,13 +338,13 @@ def enum_cross(col, tier, shard, nshards, seed):
         if unknown:
             col.add_violation(case, unknown)
 
-    for enc in km.ENCODINGS:
+    for enc in km.ENCODINGS + km.ALIASES[2:4]:
         for mode in MODES:
             for t in seqs:
                 i += 1
                 if i % nshards != shard:
                     continue
-                meta_u8 = enc == "utf-8" and len(t) == 1 and t[0] >= 0x80
+                meta_u8 = km.canon(enc) == "utf-8" and len(t) == 1 and t[0] >= 0x80
                 go(stream_case(enc, mode, [[["T", t.hex()]]]), sample=(i % 997 == 1))
                 if meta_u8:
                     continue
@@ -448,8 +451,29 @@ def run_case_any(case):
     return res
 
 
+def enum_end_to_end(col, tier, shard, nshards):
+    """the real feeder: Input.send over a pipe (C08's harness and queue model); every table sequence straddling a
+    read-size boundary at every offset, in and outside paste mode - 'a recognised sequence that arrives whole is one keypress'"""
+    from . import c08
+
+    n = 0
+    for i, case in enumerate(c08.straddle_cases(tier)):
+        if i % nshards != shard:
+            continue
+        r = c08.run_case(case)
+        n += 1
+        res = Res(labels={"end_to_end_through_Input"}, nontrivial=True, evals=r.evals)
+        for v in r.violations:
+            res.viol("end_to_end_" + v.get("kind", "?"), detail={k: v[k] for k in v if k not in ("case",)})
+        wrapped = {"kind": "end_to_end", "c08_case": case}
+        unknown = col.record(wrapped, res, distinct=True, sample=(n == 1))
+        if unknown:
+            col.add_violation(wrapped, unknown)
+
+
 def campaign(col, tier, seed, shard, nshards):
     enum_tree(col, tier, shard, nshards)
+    enum_end_to_end(col, tier, shard, nshards)
     enum_cross(col, tier, shard, nshards, seed)
     n = 4000 if tier == "quick" else 200000
     hyp_campaign(col, strategy(), run_case_any, max(n // nshards, 100), seed * 100 + shard)
@@ -465,6 +489,14 @@ _plain_run_case = run_case
 
 
 def run_case(case):  # noqa: F811  (replay entry point handles every case kind)
+    if case.get("kind") == "end_to_end":
+        from . import c08
+
+        r = c08.run_case(case["c08_case"])
+        res = Res(labels={"end_to_end_through_Input"}, nontrivial=True, evals=r.evals)
+        for v in r.violations:
+            res.viol("end_to_end_" + v.get("kind", "?"), detail={k: v[k] for k in v if k not in ("case",)})
+        return res
     if case.get("kind") == "node_path":
         return run_case_any(case)
     return _plain_run_case(case)
